@@ -108,6 +108,7 @@ pub struct HuffMachine<B: Sym> {
     max_merges: usize,
     g: Gen<B>,
     merges: usize,
+    cloned: bool,
     setup_error: Option<String>,
     items: Vec<Vec<B>>,
     tags: Vec<String>,
@@ -115,6 +116,7 @@ pub struct HuffMachine<B: Sym> {
 
 const OP_MERGE: u32 = 5000;
 const OP_CLEAR: u32 = 5001;
+const OP_CLONE_FROM: u32 = 5005; // clone_from into a coded container built from other statistics
 const OP_MERGE2: u32 = 5004; // merge_regions([self, a raw region holding each profile symbol once])
 const OP_UNKNOWN: u32 = 5002; // push an item with an out-of-statistics symbol
 const OP_UNKNOWN2: u32 = 5003; // known symbol followed by an unknown one
@@ -129,6 +131,7 @@ impl<B: Sym> HuffMachine<B> {
             max_merges,
             g: Self::empty_gen(),
             merges: 0,
+            cloned: false,
             setup_error: None,
             items: vec![],
             tags: vec![],
@@ -244,11 +247,16 @@ impl<B: Sym> HuffMachine<B> {
             }
         }
         if let Some(first) = reps.first() {
-            items.push(vec![*first; 8]);
+            // alignment items: with a one-bit shortest code these reach every start offset 0..7
+            for k in 3..=8 {
+                items.push(vec![*first; k]);
+            }
             items.push(vec![*first; 17]);
         }
         if let Some(last) = reps.last() {
             items.push(vec![*last; 3]);
+            // the rarest symbol has the all-ones code: at least a whole byte of ones
+            items.push(vec![*last; 9]);
             if reps.len() > 1 {
                 let mut v = vec![reps[0], *last, reps[0], *last, reps[0]];
                 v.push(reps[1]);
@@ -412,6 +420,7 @@ impl<B: Sym> Machine for HuffMachine<B> {
     }
     fn reset(&mut self) {
         self.merges = 0;
+        self.cloned = false;
         self.tags.clear();
         self.setup_error = None;
         let counts: BTreeMap<B, u64> = self.profile.counts.iter().map(|(s, n)| (B::from_u16(*s), *n)).collect();
@@ -445,12 +454,16 @@ impl<B: Sym> Machine for HuffMachine<B> {
             v.push(OP_MERGE);
             v.push(OP_MERGE2);
         }
+        if !self.cloned {
+            v.push(OP_CLONE_FROM);
+        }
         v
     }
     fn describe(&self, op: OpId) -> String {
         match op {
             OP_MERGE => "replace by merge_regions([self]) (next generation)".into(),
             OP_MERGE2 => "replace by merge_regions([self, raw region holding every profile symbol once])".into(),
+            OP_CLONE_FROM => "dst := coded container built from reversed statistics, holding items; dst.clone_from(self); continue with dst".into(),
             OP_CLEAR => "clear()".into(),
             OP_UNKNOWN => format!("push([{:?}]) (symbol outside the statistics)", self.unknown_symbol()),
             OP_UNKNOWN2 => "push([known, unknown])".into(),
@@ -501,6 +514,31 @@ impl<B: Sym> Machine for HuffMachine<B> {
                     (_, Err(e)) => Step::Violation(e),
                 }
             }
+            OP_CLONE_FROM => {
+                self.cloned = true;
+                // destination: another code for the same alphabet (counts reversed and squared), pre-filled
+                let syms: Vec<B> = self.g.code_counts.keys().cloned().collect();
+                let n = syms.len();
+                let vals: Vec<u64> = self.g.code_counts.values().cloned().collect();
+                let other: BTreeMap<B, u64> = syms.iter().enumerate().map(|(i, s)| (*s, vals[n - 1 - i] * vals[n - 1 - i] + i as u64)).collect();
+                let src = Self::source_from(&other);
+                let live = &self.g.c;
+                let r = guard(|| {
+                    let mut dst = HuffmanContainer::merge_regions(std::iter::once(&src));
+                    for s in &syms {
+                        let _ = dst.push(vec![*s, *s]);
+                    }
+                    dst.clone_from(live);
+                    dst
+                });
+                match r {
+                    Ok(dst) => {
+                        self.g.c = dst;
+                        Step::Ok
+                    }
+                    Err(p) => Step::Violation(format!("clone_from panicked: {p}")),
+                }
+            }
             OP_CLEAR => {
                 let c = &mut self.g.c;
                 if let Err(p) = guard(|| c.clear()) {
@@ -544,12 +582,13 @@ impl<B: Sym> Machine for HuffMachine<B> {
     }
     fn fingerprint(&self) -> Option<String> {
         Some(format!(
-            "{}|{:?}|{:?}|{}|{}",
+            "{}|{:?}|{:?}|{}|{}|{}",
             self.g.c.verif_fingerprint(),
             self.g.issued,
             self.g.pushed,
             self.g.generation,
-            self.merges
+            self.merges,
+            self.cloned
         ))
     }
     fn drain_tags(&mut self) -> Vec<String> {
